@@ -242,6 +242,31 @@ let () =
       let outs = List.sort_uniq compare (List.map show finals) in
       if List.mem observed outs then Printf.printf "%s MEMBER\n" id
       else Printf.printf "%s NOT-REACHABLE observed={%s} model={%s}\n" id observed (String.concat " | " outs)
+    | id :: "CC" :: hs :: "file" :: n :: rest when int_of_string n <= 3 && List.mem "OBS" rest ->
+      (* races of named pushes on one file.Store: outcome membership *)
+      let h = mk_h (parse_hashes hs) in
+      let n = int_of_string n in
+      let rec threads i rest acc =
+        if i = 0 then (List.rev acc, rest) else
+        match rest with
+        | name :: mt :: dg :: sz :: comb :: sc :: rest' ->
+          let nm = match String.index_opt name ':' with
+            | Some j -> str_of_hex (String.sub name 0 j) | None -> str_of_hex name in
+          let d = { d_mt = str_of_hex mt; d_dg = str_of_hex dg; d_sz = z_of_int (int_of_string sz) } in
+          let evs = parse_script sc in
+          threads (i - 1) rest' ({ ft_name = nm; ft_d = d; ft_evs = evs; ft_comb = (comb = "1"); ft_fuel = fuel_of evs; ft_pc = FStart } :: acc)
+        | _ -> failwith "bad CC case" in
+      let (ts, rest') = threads n rest [] in
+      let observed = match rest' with "OBS" :: o -> String.concat " " o | _ -> failwith "bad CC obs" in
+      let finals = explore_f h (nat_of_int (3 * n + 2))
+          { fc_st = { f_files = []; f_names = []; f_d2p = []; f_fb = [] }; fc_thr = ts } in
+      let show st =
+        let rs = List.map (fun r -> match r with Some r -> res_name r | None -> "RUNNING") (fthread_results st) in
+        let bl = List.sort compare (List.map (fun (p, c) -> Printf.sprintf "%s/%s" (hex_of_str p) (digest_str c)) st.fc_st.f_files) in
+        Printf.sprintf "%s %s I=-1" (String.concat "," rs) (match bl with [] -> "-" | l -> String.concat ";" l) in
+      let outs = List.sort_uniq compare (List.map show finals) in
+      if List.mem observed outs then Printf.printf "%s MEMBER\n" id
+      else Printf.printf "%s NOT-REACHABLE observed={%s} model={%s}\n" id observed (String.concat " | " outs)
     | id :: ("CC" | "PX" | "HUGE" | "SX") :: _ -> Printf.printf "%s UNJUDGED\n" id
     | [] -> ()
     | _ -> Printf.printf "BADLINE %s\n" l)
